@@ -48,7 +48,7 @@ RECURSIVE TreeOf(_, _)
 TreeOf(sh, i) == {i} \cup UNION { TreeOf(sh, sh.inc[i][k]) : k \in 1..Len(sh.inc[i]) }
 
 (* ---- pools: small, so that files share names -------------------------------------------------- *)
-WAccounts == {1, 3, 7, 9, 11}       \* assets:bank expenses:food "misc:my wallet" assets:кошелёк misc:fun😀:cash
+WAccounts == {1, 3, 7, 9, 11, 12, 14}   \* assets:bank expenses:food "misc:my wallet" assets:кошелёк misc:fun😀:cash Expenses:Rent "misc:my wallet:sub"
 WComms    == {0, 1, 4, 7, 8}        \* none  $  USD  "A B"  "дуб 😀"
 WPayees   == {1, 2, 3}              \* grocery store | rent | café 😀 bar
 WTags     == {1, 2, 5, 6, 8}        \* type:food  project:x y  flag:  who:me😀  place:food
@@ -89,7 +89,8 @@ WDecls(x) ==
 AcctOfFile == <<1, 3, 7, 9>>
 ExtraTx(i) == Tx(D(2020, 1, 1), Text(2),          \* the same, earliest, date in every file: "first use" ties across files
                  << Post(AcctOfFile[i], <<Amt(i, 0, 4)>>), Post(AcctOfFile[(i % 4) + 1], <<[Amt(2, 0, 1) EXCEPT !.side = "L", !.sp = FALSE]>>),
-                    Post(11, <<Amt(3, 0, 7)>>) >>)
+                    \* files 2 and 3 spell one account in two letter cases, once each: whatever breaks the tie must not be the map order
+                    Post(IF i = 2 THEN 26 ELSE IF i = 3 THEN 25 ELSE 11, <<Amt(3, 0, 7)>>) >>)
 
 (* C15: two included files declare DIFFERENT display formats for the same commodity (USD, which every file's C15 transaction
    uses): whichever rule picks the winner, it must pick the same one every time *)
@@ -156,11 +157,11 @@ vars == <<cas, stg>>
    evaluated value, so every later use sees the same draw; rendering and aggregation are deterministic *)
 WChoices(x) ==
     LET k == IF Shape = 0 THEN Pick(1..Len(Shapes)) ELSE Shape IN
-    [shape |-> k, es |-> [i \in 1..Shapes[k].n |-> WFile(Shapes[k], i, x + 100000 * i)]]
+    [shape |-> k, es |-> [i \in 1..Shapes[k].n |-> WFile(Shapes[k], i, x + 100000 * i)], trail |-> Coin(2, x + 3)]
 
 WCase(ch) ==
     LET sh  == Shapes[ch.shape]
-        ren == [i \in 1..sh.n |-> Rendered(ch.es[i])]
+        ren == [i \in 1..sh.n |-> IF ch.trail THEN Trailing(Rendered(ch.es[i])) ELSE Rendered(ch.es[i])]
         absOf == [i \in 1..sh.n |-> ren[i].abs]
     IN [ files  |-> [i \in 1..sh.n |-> [name |-> FileNames[i], lines |-> ren[i].lines, lex |-> ren[i].lex, firsts |-> ren[i].firsts, pmap |-> ren[i].pmap,
                                           abs |-> ren[i].abs, inc |-> sh.inc[i], tree |-> TreeOf(sh, i), occ |-> OccsOfFile(ren[i])]],
